@@ -6,7 +6,7 @@ AUTOSQL = 'table t\n"x"\n(\nstring chrom; "c"\nuint chromStart; "s"\nuint chromE
 
 def main():
     run = Run("C02")
-    cfgs = ["MC_BigBed_t1.cfg", "MC_BigBed_t2.cfg"] if run.thorough else ["MC_BigBed_q1.cfg", "MC_BigBed_q2.cfg"]
+    cfgs = ["MC_BigBed_t1.cfg", "MC_BigBed_t2.cfg", "MC_BigBed_q3.cfg"] if run.thorough else ["MC_BigBed_q1.cfg", "MC_BigBed_q2.cfg", "MC_BigBed_q3.cfg"]
     beh = emit(run, "MC_BigBed", cfgs)
     sizes = lambda b: [b["L"]] * b["NC"]
 
